@@ -2,9 +2,11 @@
 The agent gets ONLY the property text and sandbox facts - nothing about /verif's checks."""
 import json, sys
 props = {json.loads(l)["id"]: json.loads(l) for l in open("/verif/properties.jsonl")}
+import os
 pid = sys.argv[1]
 n = int(sys.argv[2]) if len(sys.argv) > 2 else 2
 p = props[pid]
+RND = os.environ.get("SEED_ROUND", "")  # "" -> /tmp/wt, /tmp/seed_out ; "2" -> /tmp/wt2, /tmp/seed_out2
 print(f"""You are helping test a verification effort for the open-source Python project vtlengine (an interpreter for the SDMX Validation and Transformation Language, VTL; it analyses scripts semantically and executes them by generating DuckDB SQL). Your job is to play the part of a plausible but subtly wrong code change ("seeded bug").
 
 ## The property that your change must break
@@ -17,12 +19,12 @@ Scope it is meant to hold over: {p['quantifier']['text']}
 
 ## Your working copy
 
-You have your own scratch git worktree of the repository at /tmp/wt/{pid} (source under /tmp/wt/{pid}/src/vtlengine). Work ONLY there. Never touch /repo or /verif, and do not read anything under /verif.
+You have your own scratch git worktree of the repository at /tmp/wt{RND}/{pid} (source under /tmp/wt{RND}/{pid}/src/vtlengine). Work ONLY there. Never touch /repo or /verif, and do not read anything under /verif.
 
 ## What to produce
 
 Produce {n} DIFFERENT, independent changes (each one a separate patch against the pristine worktree HEAD) to the vtlengine source (under src/vtlengine, which includes .py, .sql and docs-independent files) such that for each change:
-1. The code still compiles/imports, and the existing test-suite result is unchanged: run `cd /tmp/wt/{pid} && /venv/bin/python -m pytest -q -p no:cacheprovider --timeout=900 --continue-on-collection-errors 2>&1 | tail -1` before and after; it must report the same `169 passed` (the many failed/errors in that line are pre-existing in this sandbox and expected: the compiled C++ parser is not built here).
+1. The code still compiles/imports, and the existing test-suite result is unchanged: run `cd /tmp/wt{RND}/{pid} && /venv/bin/python -m pytest -q -p no:cacheprovider --timeout=900 --continue-on-collection-errors 2>&1 | tail -1` before and after; it must report the same `169 passed` (the many failed/errors in that line are pre-existing in this sandbox and expected: the compiled C++ parser is not built here).
 2. The change BREAKS the property above in a real, observable way (wrong result, wrong error, leaked resource, mutated argument, ... as appropriate to the property).
 3. The change looks like a realistic developer mistake or ill-advised refactor/optimisation (not sabotage with an obviously silly shape), and it needs something SPECIFIC to manifest: a particular unusual input, a multi-step sequence of operations, a fault at a particular point, a specific interleaving, or two cooperating sites that each look fine alone. Do NOT produce changes that any ordinary use would expose at once (e.g. breaking every script).
 4. You provide a demonstration program (a small Python script) that FAILS (exit code non-zero, with a message explaining the observed vs expected behaviour) when run against the changed worktree and PASSES (exit 0) against the pristine worktree.
@@ -30,16 +32,16 @@ Produce {n} DIFFERENT, independent changes (each one a separate patch against th
 ## Sandbox facts you need
 
 - Python: /venv/bin/python (3.12, has pandas, duckdb, pysdmx, networkx, pytest). No network.
-- `import vtlengine` FAILS in this sandbox because the compiled C++ parser extension (vtlengine.AST.Grammar._cpp_parser.vtl_cpp_parser) is not built. Therefore VTL *text* cannot be parsed. Workaround: a stub helper at /root/vtlstub/vtlstub.py: `import sys; sys.path.insert(0, "/root/vtlstub"); import vtlstub; vtlstub.install("/tmp/wt/{pid}/src")` and then `import vtlengine` works (everything except parsing text). Build ASTs by hand from the dataclasses in vtlengine.AST (every node needs line_start, column_start, line_stop, column_stop) and drive the real pipeline. /root/vtlstub/example_pipeline.py shows `run_ast(ast, data_structures, datapoints, ...)`, which performs exactly the steps of vtlengine.API.run() after parsing (DAG analysis, semantic analysis with InterpreterAnalyzer, SQL transpilation, DuckDB execution) - read and reuse it (set env VTL_SRC=/tmp/wt/{pid}/src when running it, and make your demo honour VTL_SRC the same way so that it can be pointed at another checkout). Public API functions that do not need to parse a script (validate_dataset, sdmx conversion helpers, config functions, exception classes, data-type classes, DAG/interpreter/transpiler classes, SQL macros through duckdb, etc.) can be called directly after installing the stub. To see how the AST for a given VTL construct looks, read src/vtlengine/AST/ASTConstructorModules/*.py and src/vtlengine/AST/__init__.py.
+- `import vtlengine` FAILS in this sandbox because the compiled C++ parser extension (vtlengine.AST.Grammar._cpp_parser.vtl_cpp_parser) is not built. Therefore VTL *text* cannot be parsed. Workaround: a stub helper at /root/vtlstub/vtlstub.py: `import sys; sys.path.insert(0, "/root/vtlstub"); import vtlstub; vtlstub.install("/tmp/wt{RND}/{pid}/src")` and then `import vtlengine` works (everything except parsing text). Build ASTs by hand from the dataclasses in vtlengine.AST (every node needs line_start, column_start, line_stop, column_stop) and drive the real pipeline. /root/vtlstub/example_pipeline.py shows `run_ast(ast, data_structures, datapoints, ...)`, which performs exactly the steps of vtlengine.API.run() after parsing (DAG analysis, semantic analysis with InterpreterAnalyzer, SQL transpilation, DuckDB execution) - read and reuse it (set env VTL_SRC=/tmp/wt{RND}/{pid}/src when running it, and make your demo honour VTL_SRC the same way so that it can be pointed at another checkout). Public API functions that do not need to parse a script (validate_dataset, sdmx conversion helpers, config functions, exception classes, data-type classes, DAG/interpreter/transpiler classes, SQL macros through duckdb, etc.) can be called directly after installing the stub. To see how the AST for a given VTL construct looks, read src/vtlengine/AST/ASTConstructorModules/*.py and src/vtlengine/AST/__init__.py.
 - Set VTL_TEMP_DIRECTORY to a scratch directory under /tmp if your demo needs the DuckDB session directory.
 - Do not install anything. Do not modify tests. Do not modify files under docs/ or tests/.
 
-## Deliverables (write them to /tmp/seed_out/{pid}/)
+## Deliverables (write them to /tmp/seed_out{RND}/{pid}/)
 
 For change k (k = 1..{n}):
-- /tmp/seed_out/{pid}/{pid}_k/patch.diff  : `git diff` of the change against the pristine worktree HEAD (apply-able with `git apply`).
-- /tmp/seed_out/{pid}/{pid}_k/demo.py     : the demonstration; must read the source dir from env var VTL_SRC (default /tmp/wt/{pid}/src); exit 0 = property holds, non-zero = broken.
-- /tmp/seed_out/{pid}/{pid}_k/notes.md    : 5-15 lines: what the change is, why it is a plausible mistake, what specific circumstance is needed for it to manifest, what you ran and observed (pristine vs changed, and the test-suite line before/after).
-After saving each patch, restore the worktree to pristine (`git -C /tmp/wt/{pid} checkout -- . && git -C /tmp/wt/{pid} clean -fdq`) and verify that the demo passes on pristine and fails after `git -C /tmp/wt/{pid} apply <patch>`; leave the worktree pristine at the end.
+- /tmp/seed_out{RND}/{pid}/{pid}_k/patch.diff  : `git diff` of the change against the pristine worktree HEAD (apply-able with `git apply`).
+- /tmp/seed_out{RND}/{pid}/{pid}_k/demo.py     : the demonstration; must read the source dir from env var VTL_SRC (default /tmp/wt{RND}/{pid}/src); exit 0 = property holds, non-zero = broken.
+- /tmp/seed_out{RND}/{pid}/{pid}_k/notes.md    : 5-15 lines: what the change is, why it is a plausible mistake, what specific circumstance is needed for it to manifest, what you ran and observed (pristine vs changed, and the test-suite line before/after).
+After saving each patch, restore the worktree to pristine (`git -C /tmp/wt{RND}/{pid} checkout -- . && git -C /tmp/wt{RND}/{pid} clean -fdq`) and verify that the demo passes on pristine and fails after `git -C /tmp/wt{RND}/{pid} apply <patch>`; leave the worktree pristine at the end.
 
 Vary the changes: touch different files/functions/mechanisms for each one, and prefer subtle ones (an off-by-one, a dropped guard, a mis-ordered pair of operations, an "optimisation" that skips a step, a table entry changed in only one of two places that must agree, a cleanup moved out of a finally, ...). In your final answer give a 3-line summary per change.""")
